@@ -112,6 +112,14 @@ def context_cases(rnd):
     for tname, term in (("LF", "\n"), ("CRLF", "\r\n"), ("CR", "\r"), ("LS", "\u2028"), ("PS", "\u2029")):
         cases.append(("string-literal", "CONT", "js-continuation-" + tname, "{{ 'a\\%sb' }}" % term, "ab", None))
         cases.append(("attr-value", "CONT", "js-continuation-" + tname, "<v a=\"{{ k + 'a\\%sb' }}\"/>" % term, "Kab", {"k": "K"}))
+    # every named character reference of the HTML table (2 231 names; some denote two code points), in text and in an attribute
+    import html.entities
+    for nm, val in sorted(html.entities.html5.items()):
+        if not nm.endswith(";"):
+            continue
+        cases.append(("static-text", "NAMEDREF", nm, "x&%sy" % nm, "x" + val + "y", None))
+        if len(val) > 1 or ord(val[0]) > 0x7f:
+            cases.append(("attr-value", "NAMEDREF", nm, '<v a="&%s"/>' % nm, val, None))
     # names: identifier-like strings (the parser's own grammar for names)
     for n in ("ab", "a-b", "a.b", "a_b", "A9", "a--b", "a.b-c"):
         cases.append(("tag-name", "NAME", n, "<%s/>" % n, n if not any(c.isupper() for c in n) else n, None))
